@@ -740,6 +740,7 @@ macro_rules! impl_binop_match_arms {
             },
               #[cfg(all(feature = $value_string, feature = "matrixd"))]
             (Value::[<Matrix $lhs_type>](Matrix::DMatrix(lhs)), Value::[<Matrix $lhs_type>](Matrix::DMatrix(rhs))) => {
+              $registrar!([<$lib MDMD>], $target_type, $value_string);
               let (rows,cols) = {lhs.borrow().shape()};
               let (rhs_rows,rhs_cols) = {rhs.borrow().shape()};
               if (rows,cols) != (rhs_rows,rhs_cols) {
